@@ -38,8 +38,8 @@ def op_term(o, n):
         return f"OSpawn {a} {'None' if sup is None else '(Some ' + str(sup) + ')'} {b(pre)} {b(post)} {b(ps)}"
     if k == "send":
         return f"OSend {o[1]} " + {"blk": "MBlock", "err": "MErr", "panic": "MPanic"}[o[2]]
-    if k in ("stop", "kill", "drain", "abort"):
-        return {"stop": "OStop", "kill": "OKill", "drain": "ODrain", "abort": "OAbort"}[k] + f" {o[1]}"
+    if k in ("stop", "kill", "drain", "abort", "dropstart"):
+        return {"stop": "OStop", "kill": "OKill", "drain": "ODrain", "abort": "OAbort", "dropstart": "ODropNow"}[k] + f" {o[1]}"
     if k == "link":
         return f"OLink {o[1]} {o[2]}"
     if k == "unlink":
@@ -238,6 +238,48 @@ def gen_exit_during_pre_start():
     return out
 
 
+def gen_link_into_closed():
+    """link / re-link into a supervisor S whose child set has already been closed by an ancestor's
+    terminate() while S itself has not yet observed its Kill (status still < Draining).  The window is
+    produced without any hook: the ancestor A is still inside pre_start (S was linked under it
+    explicitly) and the driver drops A's start future itself, so A's cleanup runs inline and S is not
+    polled before the link operations that follow in the same window."""
+    out = []
+    for s_state in ("idle", "handler", "with_child"):
+        for a_kind in (0, 1):
+            for links in (("moved",), ("fresh",), ("moved", "fresh"), ("fresh", "moved", "back")):
+                bld = Builder(8)
+                keeper = bld.spawn(None, kind=0)
+                root = bld.spawn(None, kind=0) if a_kind == 1 else None
+                a = bld.spawn(root, kind=a_kind, pre=True)
+                s_ = bld.spawn(None, kind=rng_kind(len(out)))
+                bld.emit("link", s_, a)
+                if s_state == "handler":
+                    bld.emit("send", s_, "blk")
+                elif s_state == "with_child":
+                    bld.spawn(s_, kind=1)
+                moved = bld.spawn(keeper, kind=1)
+                fresh = bld.spawn(None, kind=0)
+                bld.emit("dropstart", a, settle=False)
+                for what in links:
+                    if what == "moved":
+                        bld.emit("link", moved, s_, settle=False)
+                    elif what == "fresh":
+                        bld.emit("link", fresh, s_, settle=False)
+                    else:
+                        bld.emit("link", moved, keeper, settle=False)
+                bld.ops.append(("settle",))
+                bld.emit("send", moved, "blk")
+                bld.emit("stop", moved)
+                bld.emit("flush")
+                out.append(bld.scenario(f"closedlink:{s_state}:{a_kind}:{'+'.join(links)}"))
+    return out
+
+
+def rng_kind(i):
+    return (0, 2)[i % 2]
+
+
 def gen_random(rng, count):
     out = []
     for _ in range(count):
@@ -424,7 +466,7 @@ def run(chk):
                 s["tag"] = "replay"
                 scns.append(s)
     else:
-        scns = load_corpus() + gen_systematic() + gen_stopping_middle() + gen_exit_during_pre_start()
+        scns = load_corpus() + gen_systematic() + gen_stopping_middle() + gen_exit_during_pre_start() + gen_link_into_closed()
         scns += gen_targeted(chk.rng, (250 if quick else 3000) * factor)
         scns += gen_random(chk.rng, (250 if quick else 3000) * factor)
 
